@@ -409,3 +409,68 @@ Theorem expand_refs_idempotent refs refs' ctx known ad tlf :
   known_noslash known ->
   expand_refs refs ctx known ad tlf = Some refs' -> expand_refs refs' ctx known ad tlf = Some refs'.
 Proof. intros K. unfold expand_refs. apply mapM_idem. intros x y. apply expand_idempotent. exact K. Qed.
+
+(* ================================================================ classification *)
+Lemma in_strs_app x a b : in_strs x (a ++ b)%list = in_strs x a || in_strs x b.
+Proof. apply existsb_app. Qed.
+
+Lemma all_folders_cons ad tlf : exists x l, all_folders ad tlf = (x :: l)%list.
+Proof.
+  unfold all_folders. destruct tlf; [|eexists; eexists; reflexivity]. cbn [app].
+  destruct (map app_dep_name ad); eexists; eexists; reflexivity.
+Qed.
+
+(* a reference built from component-shaped parts whose producer is not a folder name and holds no
+   variable is a component reference: both classifiers say so, whatever the known components *)
+Theorem classify_component st prod file meth ctx known ad tlf :
+  wf_component (st, prod, file, meth) = true ->
+  is_var_reference prod = false ->
+  (st = None -> in_strs prod tlf = false /\ in_strs prod Special = false /\ in_strs prod (map app_dep_name ad) = false) ->
+  let mi := match st with Some n => n | None => ctx end in
+  expand_one (print_pref (st, prod, file, meth)) ctx known ad tlf = Some (print_pref (Some mi, prod, file, meth)) /\
+  parse_full (print_pref (st, prod, file, meth)) (Some ctx) ad tlf = Some (Some mi, prod, file, meth).
+Proof.
+  intros W V F mi. pose proof V as V0. apply orb_false_iff in V as [V1 V2].
+  pose proof (wf_component_inv _ _ _ _ W) as (_ & _ & _ & Hs & _).
+  destruct (all_folders_cons ad tlf) as (x & l & EF).
+  unfold print_pref. split.
+  - unfold expand_one, expand_potential. rewrite (parse_full_print _ _ _ _ None [] [] W), V1.
+    destruct st as [n|].
+    + rewrite V0, Hs, EF. reflexivity.
+    + destruct (F eq_refl) as (F1 & F2 & F3).
+      assert (D : in_strs prod (all_folders ad tlf) = false).
+      { unfold all_folders. rewrite !in_strs_app, F1, F2, F3. reflexivity. }
+      destruct (in_strs prod (folders_of [] []) || false); rewrite V0, D, Hs, EF; reflexivity.
+  - rewrite (parse_full_print _ _ _ _ (Some ctx) ad tlf W), V1. destruct st as [n|]; [reflexivity|].
+    destruct (F eq_refl) as (F1 & F2 & F3). unfold folders_of. rewrite !in_strs_app, F1, F2, F3. reflexivity.
+Qed.
+
+(* a reference whose first path segment is a reserved folder, an application dependency or a
+   top-level folder, or which is an absolute path, or whose producer holds a variable, parses to
+   stage None (not a component), for every owner stage *)
+Theorem classify_direct r a meth idx ad sf :
+  split_colon r = Some (a, meth) ->
+  (startswith a "/" = true \/
+   (stage_prefixed (first_seg_of "/" a) = false /\
+    (in_strs (first_seg_of "/" a) (folders_of ad sf) = true \/ var_search (first_seg_of "/" a) = true))) ->
+  exists prod file, parse_full r idx ad sf = Some (None, prod, file, meth).
+Proof.
+  intros S H. unfold parse_full, parse_data. rewrite S.
+  destruct (startswith a "/") eqn:A.
+  - destruct (os_split a) as [h t] eqn:O.
+    pose proof (os_split_abs a A) as Hh. rewrite O in Hh. cbn [fst] in Hh.
+    exists h, (Some t). unfold parse_producer. rewrite Hh. unfold not_component.
+    rewrite (startswith_hasc _ Hh). cbn [negb andb]. rewrite orb_true_r. reflexivity.
+  - destruct H as [H|[Hsp Hcls]]; [discriminate|]. unfold first_seg_of in *.
+    destruct (split1 "/" a) as [[t0 rest]|] eqn:T.
+    + pose proof (split1_hasc _ _ _ _ T) as Hsl. pose proof (split1_some _ _ _ _ T) as [Ea Ht0].
+      destruct (in_strs t0 Special) eqn:Sp.
+      * exists a, None. rewrite Ea at 1. rewrite (parse_producer_special _ _ _ Sp). rewrite <- Ea.
+        unfold not_component. rewrite Hsl. cbn [negb andb]. rewrite orb_true_r. reflexivity.
+      * exists t0, (Some rest). rewrite (parse_producer_rel _ _ (hasc_not_prefix _ _ Ht0) Hsp).
+        unfold not_component. fold (folders_of ad sf). cbn [negb]. rewrite andb_true_r.
+        destruct Hcls as [C|C]; rewrite C; [reflexivity|]. rewrite !orb_true_r. reflexivity.
+    + exists a, None. rewrite (parse_producer_rel _ _ A Hsp).
+      unfold not_component. fold (folders_of ad sf). cbn [negb]. rewrite andb_true_r.
+      destruct Hcls as [C|C]; rewrite C; [reflexivity|]. rewrite !orb_true_r. reflexivity.
+Qed.
